@@ -236,7 +236,7 @@ def encode(C, run_order=None):
     elif t == "fpdata":
         o.append(struct.pack("<ii", len(C["plats"]), C["freq"]) + C["start"]
                  + struct.pack("<i", C["nFrames"]))
-        o.append(struct.pack(f"<{len(C['plats'])}h", *[p["ch"] for p in C["plats"]]))
+        o.append(struct.pack(f"<{len(C['plats'])}H", *[p["ch"] for p in C["plats"]]))  # this map is unsigned
         for p in C["plats"]:
             o.append(enc_segmented(p["mask"], p["data"], 24))
     elif t == "fpcal":
@@ -342,7 +342,7 @@ def decode(code, fmt, data, base=0):
         nP, fq = r.i32(), r.i32()
         st = r.take(4)
         nF = r.i32()
-        chs = r.i16s(nP)
+        chs = r.u16s(nP)
         C = {"t": t, "fmt": 1, "nFrames": nF, "freq": fq, "start": st, "plats": []}
         for k in range(nP):
             m, d, _runs_ = dec_segmented(r, nF, 24)
@@ -478,7 +478,7 @@ class Image:
 
 
 def build_image(n, slots, hdr_dates=(1000000000, 1000000000, 1000000000), garbage=None,
-                layout="compact", version=1):
+                layout="compact", version=1, unused_fmt=None):
     """Foreign file written by the reference encoder.
 
     slots: list (len <= n) of dicts {type, fmt, payload(bytes), cdate, mdate, adate, comment}
@@ -509,7 +509,7 @@ def build_image(n, slots, hdr_dates=(1000000000, 1000000000, 1000000000), garbag
     out = bytearray(enc_header(n, *hdr_dates, version=version, res1=g(8), res2=g(20)))
     for i, s in enumerate(slots):
         if s is None:
-            out += enc_entry(0, 0, end, 0, hdr_dates[0], hdr_dates[1], hdr_dates[2], "",
+            out += enc_entry(0, (unused_fmt * (i + 1)) % 4 if unused_fmt else 0, end, 0, hdr_dates[0], hdr_dates[1], hdr_dates[2], "",
                              pad=g(4), tail=g(256) if garbage else None)
         else:
             out += enc_entry(s["type"], s["fmt"], offs[i], len(s["payload"]), s["cdate"],
